@@ -26,7 +26,14 @@ class SetupCfgParser(BaseParser):
         if "options" not in config:
             return None
 
-        dependency_lines = config["options"].get("install_requires", "").split("\n")
+        install_requires = config["options"].get("install_requires", "")
+        # a value given on the key's own line is a comma separated list
+        dependency_lines = [
+            line.strip()
+            for line in install_requires.split(
+                "\n" if "\n" in install_requires else ","
+            )
+        ]
         python_requires = config["options"].get("python_requires", "")
 
         return PackageStore(
